@@ -593,6 +593,9 @@ func fixedChoices(k, n int) []int {
 // present with the k-th alternative everywhere, a ramp), with and without steering away from
 // the constructs of the known findings, and checks that each kind has been built somewhere.
 func TestEveryKind(t *testing.T) {
+	vk.R.Assume("documented skips are honoured: File.Comments/Imports, File.ShadowEntry (alias of the last declaration), Doc/Recv/Name/Type of a shadow entry (`if !n.Shadow`), the implicit package name (`if !n.NoPkgDecl`), Ident.Obj and scopes")
+	vk.R.Assume("trees of the compiler front end (cl) beyond what the parser builds are represented by the synthesised trees only; a node the parser shares between two parents counts once per occurrence")
+	vk.R.Assume("sibling order of an *ast.Package's files is not checked (map iteration)")
 	names := astgen.TypeNames()
 	built := map[string]bool{}
 	i := 0
